@@ -492,57 +492,105 @@ class Interp:
         self.broken(e, "call %s::%s" % (cls, n))
 
 
-def extract_dispatch(fn):
-    """execute_task: per task type -> (sweep method called on `subgrid`, uses get_buffer?)."""
-    sw = [s for s in C.walk_stmt(fn["body"]) if s.get("k") == "Switch"]
-    if len(sw) != 1:
+def extract_dispatch(fn, enum_consts=None):
+    """execute_task: per task type -> (sweep method called on `subgrid`, uses get_buffer?), by partial evaluation of the
+    body for every task type (a switch on Task::get_type(), an if / else-if chain, or a local holding the type)."""
+    # enumerators that are compared with the type anywhere in the function
+    type_alias = set()
+
+    def is_type(e):
+        e = C.strip_casts(e)
+        if C.is_call(e, name="get_type", cls="Task"):
+            return True
+        return e.get("k") == "Ref" and e.get("id") in type_alias
+    for st in C.walk_stmt(fn["body"]):
+        if st.get("k") == "Decl":
+            for d in st["d"]:
+                if d.get("init") is not None and C.is_call(C.strip_casts(d["init"]), name="get_type", cls="Task"):
+                    type_alias.add(d["id"])
+    labels = {}
+    for st in C.walk_stmt(fn["body"]):
+        if st.get("k") == "Case":
+            lhs = C.strip_casts(st["lhs"])
+            if lhs.get("dk") == "EnumConstant":
+                labels[lhs["n"]] = int(lhs["v"])
+        if st.get("k") == "Bin" and st.get("op") in ("==", "!="):
+            for p2, q2 in ((st["a"], st["b"]), (st["b"], st["a"])):
+                q0 = C.strip_casts(q2)
+                if is_type(p2) and q0.get("k") == "Ref" and q0.get("dk") == "EnumConstant":
+                    labels[q0["n"]] = int(q0["v"])
+    if not labels:
         raise AnalysisBroken("execute_task: expected one switch on the task type")
-    sw = sw[0]
-    c = C.strip_casts(sw["c"])
-    if not C.is_call(c, name="get_type", cls="Task"):
-        raise AnalysisBroken("execute_task: switch is not on Task::get_type()")
-    out = {}
-    cur = []
-    body = sw["body"]["s"] if sw["body"].get("k") == "Block" else [sw["body"]]
-    pending = None
-    for st in body:
-        labels = []
-        inner = st
-        while inner is not None and inner.get("k") in ("Case", "Default"):
-            if inner["k"] == "Case":
-                lhs = C.strip_casts(inner["lhs"])
-                labels.append(lhs.get("n"))
-            else:
-                labels.append("default")
-            inner = inner.get("sub")
-        if labels:
-            if pending is not None and pending["open"]:
-                raise AnalysisBroken("execute_task: case falls through into another case (line %s)" % st.get("l"))
-            pending = {"labels": labels, "stmts": [], "open": True}
-            for lab in labels:
-                out[lab] = pending
-        if pending is None:
-            raise AnalysisBroken("execute_task: statement before first case")
-        if inner is not None:
-            if inner.get("k") == "Break":
-                pending["open"] = False
-            else:
-                pending["stmts"].append(inner)
-                if inner.get("k") == "Block" and inner.get("mac") in C.ABORT_MACROS:
-                    pending["open"] = False
+
+    def truth(e, val):
+        e = C.strip_casts(e)
+        k = e.get("k")
+        if k == "Un" and e["op"] == "!":
+            t = truth(e["x"], val)
+            return None if t is None else (not t)
+        if k == "Bin" and e["op"] in ("||", "&&"):
+            a2, b2 = truth(e["a"], val), truth(e["b"], val)
+            if e["op"] == "||":
+                return True if (a2 is True or b2 is True) else (False if (a2 is False and b2 is False) else None)
+            return False if (a2 is False or b2 is False) else (True if (a2 is True and b2 is True) else None)
+        if k == "Bin" and e["op"] in ("==", "!="):
+            for p2, q2 in ((e["a"], e["b"]), (e["b"], e["a"])):
+                cv = C.const_int(q2)
+                if is_type(p2) and cv is not None:
+                    return (val == cv) == (e["op"] == "==")
+        return None
+
+    def collect(st, val, out):
+        k = st.get("k")
+        if k == "Block":
+            if st.get("mac") in C.ABORT_MACROS:
+                out.append(("abort", st))
+                return
+            for c2 in st.get("s", []):
+                collect(c2, val, out)
+        elif k == "If":
+            t = truth(st["c"], val)
+            if t is None:
+                out.append(("stmt", st["c"]))
+                collect(st["th"], val, out)
+                if st.get("el") is not None:
+                    collect(st["el"], val, out)
+            elif t:
+                collect(st["th"], val, out)
+            elif st.get("el") is not None:
+                collect(st["el"], val, out)
+        elif k == "Switch" and is_type(st["c"]):
+            from ..tables import switch_arms
+            _, arms, default = switch_arms(fn, st)
+            arm = arms.get(val, default)
+            if arm is not None:
+                for s3 in arm["stmts"]:
+                    collect(s3, val, out)
+        elif k in ("For", "While", "Do"):
+            collect(st["body"], val, out)
+        else:
+            out.append(("stmt", st))
     res = {}
-    for lab, arm in out.items():
-        if lab == "default":
-            continue
+    for lab, val in sorted(labels.items()):
+        out = []
+        collect(fn["body"], val, out)
         calls = []
         uses_buffer = False
-        for st in arm["stmts"]:
-            for x in C.walk_stmt(st):
-                if C.is_call(x) and x.get("obj") is not None and x.get("cls", "").endswith("DensitySubGrid") \
-                        and x.get("n") in PHASE_OF_METHOD:
-                    calls.append(x)
-                if C.is_call(x, name="get_buffer", cls="Task"):
-                    uses_buffer = True
+        aborts = any(kind == "abort" for kind, _ in out)
+        for kind, st in out:
+            if kind != "stmt":
+                continue
+            exprs = [d["init"] for d in st["d"] if d.get("init") is not None] if st.get("k") == "Decl" else [st]
+            for ex in exprs:
+                for x in C.walk(ex):
+                    if C.is_call(x) and x.get("obj") is not None and x.get("cls", "").endswith("DensitySubGrid") \
+                            and x.get("n") in PHASE_OF_METHOD:
+                        if not any(x is y for y in calls):
+                            calls.append(x)
+                    if C.is_call(x, name="get_buffer", cls="Task"):
+                        uses_buffer = True
+        if not calls and aborts:
+            continue
         if len(calls) != 1:
             raise AnalysisBroken("execute_task: arm %s does not dispatch to exactly one sweep" % lab)
         res[lab] = {"method": calls[0]["n"], "buffer": uses_buffer, "call": calls[0]}
@@ -954,6 +1002,9 @@ def check_worker_loop(chk, unit):
                 function=drv["qname"], construct="worker loop condition")
     if counter_key is None:
         return
+    # void helper functions of the driver unit that the loop body calls as statements are part of the protocol
+    loop = dict(loop)
+    loop["body"] = C.inline_void_helpers(loop["body"], Interp.helpers)
     g = C.CFG(drv, body=loop["body"], name="hydro worker loop body", loop_body=True)
 
     def calls_in(node, pred):
@@ -1080,7 +1131,7 @@ def check_worker_loop(chk, unit):
         inner = [s for s in C.walk_stmt(lp["body"]) if s.get("k") == "For"]
         adds = [x for x in C.walk_stmt(lp["body"]) if C.is_call(x, name="add_task", cls="TaskQueue")]
         incs = [x for x in C.walk_stmt(lp["body"]) if on_counter(x, "pre_increment")]
-        zero_tests = [x for x in C.walk_stmt(lp["body"]) if x.get("k") == "Bin" and x["op"] == "==" and
+        zero_tests = [x for x in C.walk_stmt(lp["body"]) if x.get("k") == "Bin" and x["op"] in ("==", "!=") and
                       C.const_int(x["b"]) == 0 and
                       any(C.is_call(y, name="get_number_of_unfinished_parents") for y in C.walk(x["a"]))]
         bound18 = any(C.const_int(C.strip_casts(s["c"])["b"]) == 18 for s in inner
@@ -1100,7 +1151,8 @@ def check_worker_loop(chk, unit):
                 if node.kind == "branch":
                     e = C.strip_casts(node.ast)
                     if e is zero_tests[0] or any(y is zero_tests[0] for y in C.walk(e)):
-                        return [(True, (True, bad)), (False, (False, bad))]
+                        is_zero_edge = zero_tests[0]["op"] == "=="
+                        return [(True, (is_zero_edge, bad)), (False, (not is_zero_edge, bad))]
                 for x in calls_in(node, lambda x: x is adds[0] or x is incs[0]):
                     if seen is not True:
                         bad = True
